@@ -120,22 +120,23 @@ type Sim struct {
 	free    atomic.Bool
 	arrival uint64
 
-	viol     *Violation
-	trace    []string
-	thash    uint64
-	probes   map[string]int
-	faults   map[string]int
-	switches uint64
-	injected time.Duration
-	start    time.Time
-	mainDone bool
-	stuck    bool
-	adopted  int
-	starve   string
-	nprio    int
-	lastRun  *G
-	simEnd   time.Time
-	unlockCh chan struct{} // free-run mode: closed and replaced at every unlock
+	viol       *Violation
+	trace      []string
+	thash      uint64
+	probes     map[string]int
+	faults     map[string]int
+	switches   uint64
+	injected   time.Duration
+	start      time.Time
+	mainDone   bool
+	stuck      bool
+	sleepUntil time.Time // end of the longest Sleep a harness goroutine is in
+	adopted    int
+	starve     string
+	nprio      int
+	lastRun    *G
+	simEnd     time.Time
+	unlockCh   chan struct{} // free-run mode: closed and replaced at every unlock
 }
 
 var cur atomic.Pointer[Sim]
@@ -683,7 +684,12 @@ func (s *Sim) loop() {
 		e := s.eligibleLocked(now)
 		if len(e) == 0 {
 			s.current = nil
-			d := s.cfg.MaxIdle
+			limit := s.cfg.MaxIdle
+			if s.sleepUntil.After(now) {
+				// the harness itself is asleep (Sleep): idleness counts from the end of that sleep
+				limit += s.sleepUntil.Sub(now)
+			}
+			d := limit
 			if dl, ok := s.nearestDeadlineLocked(); ok {
 				if until := dl.Sub(now); until < d {
 					d = until
@@ -694,7 +700,7 @@ func (s *Sim) loop() {
 			select {
 			case <-s.notify:
 			case <-time.After(d):
-				if time.Since(t0) >= s.cfg.MaxIdle {
+				if time.Since(t0) >= limit {
 					s.mu.Lock()
 					s.stuck = true
 					s.mu.Unlock()
@@ -844,6 +850,11 @@ func (s *Sim) Sleep(d time.Duration) {
 	g := s.me("sleep")
 	s.control(g, "sleep")
 	g.inOp = "sleep"
+	s.mu.Lock()
+	if u := time.Now().Add(d); u.After(s.sleepUntil) {
+		s.sleepUntil = u
+	}
+	s.mu.Unlock()
 	time.Sleep(d)
 	g.inOp = ""
 	s.control(g, "sleep.post")
